@@ -152,7 +152,8 @@ theorem field_exact_partial (O : Oracles) (R : String → PyVal → Bool) (S : S
 
 /-- **schema_exact (partial, field level: containers and nested classes).**  `field_exact_partial`
     extended to the fragment `exactF`: homogeneous `Array[X]` (any size bounds) and `Tuple[X]` without
-    `uniqueItems`, `Optional[X]` (not as a direct array element) and nested Structure classes by `$ref`
+    `uniqueItems`, `Optional[X]` (not as a direct array element), `Map[String, X]` (unconstrained key, no size
+    bounds) and nested Structure classes by `$ref`
     (no defaults), nested to any depth over the exact scalars.  Every JSON document value (object keys are strings) that the field's schema admits —
     class references resolved through a faithful definitions table with enough fuel — is not null and
     is accepted by `deserialize_single_field` and by the field's validation -/
@@ -164,10 +165,10 @@ theorem field_exact_containers_partial (O : Oracles) (S : String → String → 
     v.isNone = false ∧ ∃ y y', deser O opts ign f v = .ok y ∧ validate O f y = .ok y' := by
   unfold jsValidFuel at h
   rw [dialect_fix_field] at h
-  exact c08_exactN O S hS opts D f n ign v hfrag hrefs hn hdoc h
+  exact c08_exactN O S hS D f n opts ign v hfrag hrefs hn hdoc h
 
 /-- **schema_exact (partial, class level).**  For every class of `inExactFragment` (not a field wrapper,
-    no defaults, fields in `exactF`: exact scalars, Array[X], Tuple[X], Optional[X], nested classes, at any depth),
+    no defaults, fields in `exactF`: exact scalars, Array[X], Tuple[X], Optional[X], Map[String, X], nested classes, at any depth),
     every JSON object that the class's schema admits — the schema and definitions `structure_to_schema`
     returns, after the dialect rewrite, with fuel covering the nesting of class references — and every
     flag setting of the Deserializer: `Deserializer(cls).deserialize(doc)` succeeds (each member passes
@@ -369,13 +370,14 @@ def exExactCls : FieldDecl :=
                        ("e", .enumCls "Color" ["RED", "GREEN"]),
                        ("l", .seqOf .list (.tupleOf (.integer { max := some ⟨5, 1⟩ }) false) { max := some 2 }),
                        ("n", .seqOf .list exExactInner {}),
-                       ("o", .anyOf [.seqOf .list (.number {}) { min := some 1 }, .noneF])]
+                       ("o", .anyOf [.seqOf .list (.number {}) { min := some 1 }, .noneF]),
+                       ("m", .mapOf (.string none none none) (.tupleOf .boolean false) {})]
 
 theorem schema_exact_class_example :
     inExactFragment exExactCls = true
     ∧ classRefsFaithfulB (fixedPtrDefs exExactCls) exExactCls = true ∧ refDepth exExactCls = 2
-    ∧ schemaAccepts exS exExactCls 2 (.dict [(.str "i", .int 3), (.str "s", .str "xy"), (.str "e", .str "RED"), (.str "l", .list [.list [.int 1, .int 5], .list []]), (.str "n", .list [.dict [(.str "k", .int 2)]]), (.str "o", .list [.float ⟨1, 2⟩])]) = true
-    ∧ (match deserialize exO {} exExactCls (.dict [(.str "i", .int 3), (.str "s", .str "xy"), (.str "e", .str "RED"), (.str "l", .list [.list [.int 1, .int 5], .list []]), (.str "n", .list [.dict [(.str "k", .int 2)]]), (.str "o", .list [.float ⟨1, 2⟩])]) with
+    ∧ schemaAccepts exS exExactCls 2 (.dict [(.str "i", .int 3), (.str "s", .str "xy"), (.str "e", .str "RED"), (.str "l", .list [.list [.int 1, .int 5], .list []]), (.str "n", .list [.dict [(.str "k", .int 2)]]), (.str "o", .list [.float ⟨1, 2⟩]), (.str "m", .dict [(.str "k", .list [.bool true])])]) = true
+    ∧ (match deserialize exO {} exExactCls (.dict [(.str "i", .int 3), (.str "s", .str "xy"), (.str "e", .str "RED"), (.str "l", .list [.list [.int 1, .int 5], .list []]), (.str "n", .list [.dict [(.str "k", .int 2)]]), (.str "o", .list [.float ⟨1, 2⟩]), (.str "m", .dict [(.str "k", .list [.bool true])])]) with
        | .ok _ => true | .error _ => false) = true
     ∧ schemaAccepts exS exExactCls 2 (.dict [(.str "i", .int 11), (.str "s", .str "xy")]) = false := by decide
 
